@@ -14,10 +14,17 @@ WT = "/tmp/verif_seeded_wt_%d" % os.getpid()
 
 
 def main():
+    shard = None
+    if len(sys.argv) > 2 and sys.argv[1] == "--shard":          # --shard k/n : the properties whose number is k mod n
+        k, n = [int(x) for x in sys.argv[2].split("/")]
+        shard = (k, n)
+        del sys.argv[1:3]
     ids = sys.argv[1:] or sorted(d for d in os.listdir(os.path.join(VERIF, "seeded")) if os.path.isdir(os.path.join(VERIF, "seeded", d)) and not d.startswith("_"))
+    if shard:
+        ids = [i for i in ids if int(i[1:3]) % shard[1] == shard[0]]
     subprocess.check_call(["git", "-C", "/repo", "worktree", "add", "-q", "--detach", WT, "HEAD"])
     results = {}
-    path = os.path.join(VERIF, "seeded", "RESULTS.json")
+    path = os.path.join(VERIF, "seeded", "RESULTS.json" if not shard else "RESULTS.%d.json" % shard[0])
     if os.path.exists(path) and sys.argv[1:]:
         results = json.load(open(path))
     try:
